@@ -20,7 +20,7 @@ static void pump(int n) {          // enter and leave a critical region n times 
 }
 extern "C" void vp_setup() { cell.store(new Node(1)); }
 
-extern "C" void vp_thread1() {     // reader
+static void role_reader() {
 #ifdef USE_REGION
   R::region_guard rg;
 #endif
@@ -50,7 +50,7 @@ extern "C" void vp_thread1() {     // reader
   }
 }
 
-extern "C" void vp_thread2() {     // writer
+static void role_writer() {
   Node* n = new Node(2);
   GP g;
   g.acquire(cell);
@@ -72,11 +72,20 @@ extern "C" void vp_thread2() {     // writer
 #endif
 }
 
-#ifdef SCANNER
-// third thread: retires a private node, which makes it scan while the others run
-extern "C" void vp_thread3() {
+// third role: retires a private node, which makes it scan while the others run
+static void role_scanner() {
   Node* t = new Node(9);
-  GP g(MP(t));
+  GP g{MP(t)};
   g.reclaim();
 }
+#if defined(ORDER_SRW)          // scanner, reader, writer: lets the scanner take its snapshot first within one round
+extern "C" void vp_thread1() { role_scanner(); }
+extern "C" void vp_thread2() { role_reader(); }
+extern "C" void vp_thread3() { role_writer(); }
+#else
+extern "C" void vp_thread1() { role_reader(); }
+extern "C" void vp_thread2() { role_writer(); }
+#ifdef SCANNER
+extern "C" void vp_thread3() { role_scanner(); }
+#endif
 #endif
